@@ -200,7 +200,7 @@ def run_property(prop, tier, seed):
                 continue
             if kind == "canary":
                 canaries_run += 1
-                if any(f["label"] == "canary" for f in fl):
+                if fl:   # any failure: `false` was not derived (with --multiple-errors 1 the first error may be another clause)
                     canaries_rejected += 1
                 elif r["status"] == "ok":
                     undecided.append("%s: vacuity canary %s was NOT rejected (contradictory requires / shim?)" % (uname, fid))
